@@ -96,9 +96,23 @@ def run (ctx):
       idx = v.left.id
       st = [s for (k, s, n) in reuse if n is not None and g.dominates(n, rn) and _subscript_index(s) == idx]
       good = bool(st); why = "returns %s after storing at slot [%s]" % (txt, idx)
+      d_ = q.single_def(alloc.node, idx)
+      if not good and d_ is not None and _is_len_of_buf(d_):
+        # count = len(list) taken BEFORE the append: the appended slot has index count, its id is count + 1
+        dn = [n for n in g.nodes if n.kind == 'stmt' and isinstance(n.ast, ast.Assign) and n.ast.value is d_]
+        ap = [n for (k, s, n) in grow if n is not None and k == 'call:append' and g.dominates(n, rn)]
+        good = bool(dn) and bool(ap) and all(g.dominates(dn[0], a_) and dn[0] not in g.reachable(a_) for a_ in ap)
+        why = "returns (length before the append) + 1 after appending"
     elif _is_len_of_buf(v):
       ap = [s for (k, s, n) in grow if n is not None and k == 'call:append' and g.dominates(n, rn)]
       good = bool(ap); why = "returns len(list) right after append (index+1)"
+    elif isinstance(v, ast.BinOp) and isinstance(v.op, ast.Add) and isinstance(v.right, ast.Constant) and v.right.value == 1 and isinstance(v.left, ast.Name) \
+         and q.single_def(alloc.node, v.left.id) is not None and _is_len_of_buf(q.single_def(alloc.node, v.left.id)):
+      # count = len(list) taken BEFORE the append: the appended slot has index count, its id is count + 1
+      dn = [n for n in g.nodes if n.kind == 'stmt' and isinstance(n.ast, ast.Assign) and n.ast.value is q.single_def(alloc.node, v.left.id)]
+      ap = [n for (k, s, n) in grow if n is not None and k == 'call:append' and g.dominates(n, rn)]
+      good = bool(dn) and bool(ap) and all(g.dominates(dn[0], a_) and dn[0] not in g.reachable(a_) for a_ in ap)
+      why = "returns (length before the append) + 1 after appending"
     else:
       good = False; why = "returned id `%s` is not index+1 of the slot just written" % txt
     ctx.ob('R-AGREE', alloc, "buffer id = index+1 (`return %s`)" % txt, good,
